@@ -87,6 +87,7 @@ type renv struct {
 
 	// dispatch log
 	dispStart []dispEv
+	dispDone  []dispEv
 	dispEnd   map[int]chan struct{}
 	holdDisp  map[int]chan struct{} // message id -> release channel
 
@@ -240,6 +241,10 @@ func (e *renv) process(env *network.Envelope) error {
 	if hold != nil {
 		<-hold
 	}
+	// the model logs a dispatch when Dispatch returns
+	e.mu.Lock()
+	e.dispDone = append(e.dispDone, dispEv{e.tick(), m.ID})
+	e.mu.Unlock()
 	if end != nil {
 		close(end)
 	}
@@ -673,6 +678,7 @@ type robsJSON struct {
 	PeerEOF    []bool   `json:"peer_saw_close"`
 	Disp       [][2]int `json:"dispatched"`
 	Late       int      `json:"late"`
+	InProgress int      `json:"in_progress_at_stop_return"`
 	Panic      bool     `json:"panic"`
 	Goroutines int      `json:"router_goroutines_left"`
 	Rebind     bool     `json:"rebind"`
@@ -729,14 +735,25 @@ func (e *renv) finish(msgConn map[int]int) robsJSON {
 			firstRet = st
 		}
 	}
-	for _, d := range e.dispStart {
+	for _, d := range e.dispDone {
 		c, ok := msgConn[d.msg]
 		if !ok {
 			c = 999
 		}
 		o.Disp = append(o.Disp, [2]int{c, d.msg})
+	}
+	doneAt := map[int]int64{}
+	for _, d := range e.dispDone {
+		doneAt[d.msg] = d.stamp
+	}
+	for _, d := range e.dispStart {
 		if firstRet != 0 && d.stamp > firstRet {
 			o.Late++
+		}
+		for _, ret := range e.stopRetStamp {
+			if end, ok := doneAt[d.msg]; ret != 0 && d.stamp < ret && (!ok || end > ret) {
+				o.InProgress++
+			}
 		}
 	}
 	o.Panic = e.panicked
@@ -809,8 +826,8 @@ func coqRobs(o robsJSON) string {
 		}
 		return lib.List(s)
 	}
-	return fmt.Sprintf("(mkRobs %s %s %s %s %d %s %d %s)", lib.List(o.Sends), bools(o.Stops), bools(o.Open),
-		lib.List(disp), o.Late, lib.Bool(o.Panic), o.Goroutines, lib.Bool(o.Rebind))
+	return fmt.Sprintf("(mkRobs %s %s %s %s %d %d %s %d %s)", lib.List(o.Sends), bools(o.Stops), bools(o.Open),
+		lib.List(disp), o.Late, o.InProgress, lib.Bool(o.Panic), o.Goroutines, lib.Bool(o.Rebind))
 }
 
 func coqMacro(m mac) string {
